@@ -379,13 +379,16 @@ func (s *Solvers) Check(asserts []*Term, wantModel bool) (Result, Model, string)
 	// 43 ms -> 1.6 ms); adaptive: switched off for this worker after 3 consecutive misses
 	tryFast := false
 	if !hasFP && s.auto && s.fast != nil && s.fastMiss < 3 {
-		bit := false
+		bit, div := false, false
 		for _, a := range as {
 			if a.hasBit {
 				bit = true
 			}
+			if a.hasDiv {
+				div = true
+			}
 		}
-		tryFast = !bit
+		tryFast = !bit && div
 	}
 	if tryFast {
 		t0 := time.Now()
